@@ -234,6 +234,7 @@ func checkC06(c *core.Ctx) {
 	r7 := c.Rule("R6.7", "T", "a length field derived from len(b.Bytes()) is computed before the serializer appends padding behind the payload")
 	lengthBeforePadding(c, r7)
 	currentFieldInConditions(c, c.Rule("R6.9", "T", "SerializeTo branches on the current value of a receiver field it also stores, not on a copy read before the store"))
+	conditionalLayoutAgreement(c, c.Rule("R6.10", "T", "a field read and written at a running offset is preceded by the same guarded advances on both sides"))
 	coArgumentAgreement(c, c.Rule("R6.8", "T", "sizing and writing passes over the same object pair each field with the same metadata accessor"))
 	r5 := c.Rule("R6.5", "T", "a list written element by element with PrependBytes is walked from its last element down")
 	listOrderUnderPrepend(c, r5)
